@@ -86,6 +86,8 @@ def oracle(sc, tr, extra):
             transport_failed = True
         if x["kind"] == "call" and x["action"] and x["action"][0] == "close" and x["result"] == 0:
             close_attempted = True
+        if x["kind"] == "write" and x["frame"] and x["frame"]["op"] == 10 and not x["by_app"] and not x["frame"].get("minimal", True):
+            out.append("the Pong for a %d-byte Ping is not a valid control frame: its length is not in the 7-bit form (RFC 6455 5.2: the minimal encoding must be used; a server refuses the frame)" % (x["frame"]["length"],))
         if x["kind"] == "write" and x["frame"] and x["frame"]["op"] >= 8 and x["frame"]["rsv"]:
             out.append("a control frame (opcode %d) was written with reserved bits set (%d)" % (x["frame"]["op"], x["frame"]["rsv"]))
         if x["kind"] == "write" and x["frame"] and x["frame"]["op"] == 10 and not x["by_app"]:
